@@ -133,6 +133,119 @@ def dump_tab(tab):
     return ' || '.join(dump_branch(b) for b in tab)
 
 
+# ---------------------------------------------------------------------------
+# search-layer probe (job flag `probe`): after every real step, the real target set of every rule on every open
+# branch, obtained from the rule's own target enumeration on the live objects WITHOUT its side effects
+# (`FilterNodeCache.release` goes to a scratch set, `gc()` is not run: the nodes already queued for release are skipped,
+# which is what the next real `gc()` will do), and the log of the real `rule.target(branch)` calls between steps
+# (they decide which cached nodes are released).  See harness/searchcorr.py and lean/Ptx/Search.
+# ---------------------------------------------------------------------------
+
+_SEARCH_LOG = None
+
+
+def install_search_log():
+    "wrap the (final) method Rule.target once per process: every call is logged as (rule, branch)"
+    global _SEARCH_LOG
+    if _SEARCH_LOG is None:
+        from pytableaux.proof.tableaux import Rule
+        _SEARCH_LOG = []
+        orig = Rule.target
+
+        def target(self, branch, /):
+            _SEARCH_LOG.append((self, branch))
+            return orig(self, branch)
+        Rule.target = target
+    return _SEARCH_LOG
+
+
+def rule_family(rule, meta):
+    """(model rule name, family) of a live rule object, from its class hierarchy / Helpers / the regenerated rule rows:
+    closure | frame | none | newWorld | eachWorld | unmodelled:<why>"""
+    from pytableaux.proof.helpers import NodesWorlds
+    name = type(rule).__name__
+    if isinstance(rule, ClosingRule):
+        return 'closure', 'closure'
+    for cls, nm in ((prules.access.Serial, 'Serial'), (prules.access.Reflexive, 'Reflexive'),
+                    (prules.access.Transitive, 'Transitive'), (prules.access.Symmetric, 'Symmetric')):
+        if isinstance(rule, cls):
+            return nm, 'frame'
+    row = meta.get(name)
+    if isinstance(rule, prules.ModalOperatorRule):
+        fam = 'eachWorld' if NodesWorlds in rule.helpers else 'newWorld'
+        if row is None or row.get('witness') != fam:
+            return name, f'unmodelled:family-mismatch:{fam}:{row and row.get("witness")}'
+        return name, fam
+    if isinstance(rule, prules.OperatorNodeRule):
+        if row is None or row.get('witness') != 'none':
+            return name, f'unmodelled:family-mismatch:none:{row and row.get("witness")}'
+        return name, 'none'
+    if isinstance(rule, prules.QuantifiedSentenceRule):
+        return name, 'unmodelled:quantifier'
+    return name, 'unmodelled:' + ('identity' if name == 'IdentityIndiscernability' else 'other')
+
+
+class _Entry:
+    __slots__ = ('rule', 'target')
+
+    def __init__(self, rule, target):
+        self.rule, self.target = rule, target
+
+
+def probe_targets(rule, branch):
+    "the targets `rule._get_targets(branch)` would yield at the next real search, without releasing / collecting anything"
+    from pytableaux.proof.helpers import FilterHelper
+    from pytableaux.proof.common import Target
+    fn = type(rule)._get_targets
+    inner = getattr(fn, '__wrapped__', None)
+    if inner is None or FilterHelper not in rule.helpers:
+        return list(rule._get_targets(branch))
+    helper = rule[FilterHelper]
+    saved = helper._garbage
+    helper._garbage = set()
+    out = []
+    try:
+        try:
+            nodes = list(helper[branch])
+        except KeyError:
+            nodes = []
+        for node in nodes:
+            if (branch, node) in saved:
+                continue
+            for target in inner(rule, node, branch):
+                if isinstance(target, Target):
+                    target.update(rule=rule, branch=branch, node=node)
+                else:
+                    target = Target(target, rule=rule, branch=branch, node=node)
+                out.append(target)
+    finally:
+        helper._garbage = saved
+    return out
+
+
+def probe_state(tab, meta, fams):
+    "[[branch index, model rule name, sorted steps]] for every open branch and modelled rule with a non-empty target set"
+    out = []
+    for b in tab.open:
+        bi = branch_index(tab, b)
+        acc = {}
+        for rule in tab.rules:
+            name, fam = fams[id(rule)]
+            if fam.startswith('unmodelled'):
+                continue
+            tgs = probe_targets(rule, b)
+            if not tgs:
+                continue
+            if fam == 'closure':
+                acc.setdefault(name, set()).add('X')
+                continue
+            for tg in tgs:
+                acc.setdefault(name, set()).add(enc_step(tab, _Entry(rule, tg), meta, set()))
+        for name in sorted(acc):
+            out.append([bi, name, sorted(acc[name])])
+    return out
+
+
 def run_job(job):
     import time as _t
     _t0 = _t.time()
@@ -149,12 +262,27 @@ def run_job(job):
     trunk = ' ; '.join(wire.enc_node(n) for n in tab[0])
     steps = []
     observations = []
+    probing = bool(job.get('probe'))
+    if probing:
+        from pytableaux.proof.helpers import MaxWorlds as _MW
+        slog = install_search_log()
+        fams = {id(r): rule_family(r, meta) for r in tab.rules}
+        events = []
+        probes = [probe_state(tab, meta, fams)]
     while True:
         pre = {id(b): set(b.constants) for b in tab}
+        if probing:
+            slog.clear()
         e = tab.step()
         if e is None:
             break
         steps.append(enc_step(tab, e, meta, pre.get(id(e.target.branch), set())))
+        if probing:
+            for r, b in slog:
+                if _MW in r.helpers and not fams[id(r)][1].startswith('unmodelled'):
+                    events.append(f'S {fams[id(r)][0]} {branch_index(tab, b)}')
+            events.append(f'A {fams[id(e.rule)][0]} {steps[-1]}')
+            probes.append(probe_state(tab, meta, fams))
         if job.get('observe'):
             observations.append(dict(n=len(tab.history), nbranches=len(tab), nopen=len(tab.open)))
         if len(steps) > 4000:
@@ -165,6 +293,14 @@ def run_job(job):
                completed=tab.completed, nsteps=len(tab.history), quitflags=quitflags,
                wlimits=[(not b.closed) and world_limit_exceeded(tab, b) for b in tab],
                rules=[type(e.rule).__name__ for e in tab.history])
+    if probing:
+        out['search_request'] = f'search {job["logic"]} ## {trunk}' + ''.join(f' ## {x}' for x in events)
+        out['probes'] = probes
+        out['families'] = sorted({(type(r).__name__,) + fams[id(r)] for r in tab.rules})
+        out['applied_unmodelled'] = sorted({type(e.rule).__name__ for e in tab.history if fams[id(e.rule)][1].startswith('unmodelled')})
+        out['open_final'] = [[branch_index(tab, b), ' ; '.join(wire.enc_node(n) for n in b),
+                              any(isinstance(n, FlagNode) and n.get('flag') == 'quit' for n in b), world_limit_exceeded(tab, b)]
+                             for b in tab.open]
     if job.get('models') and tab.invalid:
         ms = []
         for b in tab.open:
